@@ -245,6 +245,10 @@ def torchfn_cases(cname, layout, unsynth, embed=None):
     return out
 
 
+SLOW = {"load", "load_", "load_memmap", "load_memmap_", "save", "memmap", "memmap_", "memmap_like", "dumps", "from_consolidated",
+        "memmap_refresh_", "consolidate", "make_memmap", "make_memmap_from_tensor"}      # touch the file system
+
+
 def gen_cases(R):
     rng = R.rng
     names = Lb.public_names()
@@ -257,24 +261,34 @@ def gen_cases(R):
                 continue   # the legacy layout is about non-tensor payloads of the class itself
             combos.append((cname, layout))
     for (cname, layout) in combos:
-        full = (layout == "plain") or (cname in QUICK_CLASSES_ALL_LAYOUTS) or not R.quick
-        nvar = (3 if full else 2) if R.quick else 20
-        ns = names if full else rng.sample(names, len(names) // 4)
+        if not R.quick:
+            ns, nvar, ops = names, 20, True
+        elif layout == "plain":
+            ns, nvar, ops = names, 2, True
+        elif cname in ("Dec", "Nest"):
+            ns, nvar, ops = [n for n in names if n not in SLOW or cname == "Dec"], 1, True
+        else:
+            frac = 3 if cname == "Sub" else 10
+            ns, nvar, ops = [n for n in rng.sample(names, len(names) // frac) if n not in SLOW], 2, rng.random() < 0.35
         cases += method_cases(cname, layout, ns, nvar, rng, unsynth)
-        if full or rng.random() < 0.5:
-            cases += operator_cases(cname, layout, rng, unsynth, 5 if R.quick else 99)
+        if ops:
+            cases += operator_cases(cname, layout, rng, unsynth, 4 if R.quick else 99)
             cases += torchfn_cases(cname, layout, unsynth)
     # nested in a tensordict
     for (cname, layout) in combos:
         if layout in ("legacy",):
             continue
-        full = cname in ("Dec", "Nest") and layout in ("plain", "lazy")
-        if R.quick and not full and rng.random() < 0.7:
-            continue
-        ns = names if (full or not R.quick) else rng.sample(names, len(names) // 3)
-        cases += method_cases(cname, layout, ns, 2 if R.quick else 8, rng, unsynth, embed="outer")
-        cases += operator_cases(cname, layout, rng, unsynth, 4 if R.quick else 99, embed="outer")
-        cases += torchfn_cases(cname, layout, unsynth, embed="outer")
+        full = (cname, layout) in (("Dec", "plain"), ("Nest", "plain"), ("Dec", "lazy"), ("Sub", "plain"))
+        if not R.quick:
+            ns, nvar = names, 8
+        elif full:
+            ns, nvar = [n for n in names if n not in SLOW or layout == "plain"], 1
+        else:
+            ns, nvar = [n for n in rng.sample(names, len(names) // 10) if n not in SLOW], 1
+        cases += method_cases(cname, layout, ns, nvar, rng, unsynth, embed="outer")
+        if full or not R.quick or rng.random() < 0.3:
+            cases += operator_cases(cname, layout, rng, unsynth, 3 if R.quick else 99, embed="outer")
+            cases += torchfn_cases(cname, layout, unsynth, embed="outer")
     return cases, unsynth
 
 
@@ -323,6 +337,19 @@ def run_all(cases, procs=14):
     return flat
 
 
+def reflection():
+    """lists obtained from the imported library (never from a hand-written list)"""
+    t = Lb.T()
+    TD, Base = t["TD"], t["Base"]
+    allattrs = sorted(n for n in dir(TD) if '"' not in n)
+    props = [n for n in allattrs if isinstance(inspect.getattr_static(Base, n, None), property) or isinstance(inspect.getattr_static(TD, n, None), property)]
+    noncallable = [n for n in allattrs if n not in props and not callable(getattr(TD, n, None))]
+    return {"td_public": Lb.public_names(), "td_all": allattrs, "td_properties": props, "td_noncallable": noncallable,
+            "td_own_classmethods": [a for a in TD.__dict__ if inspect.ismethod(getattr(TD, a))],
+            "td_api_dunders": [d for d in Lb.api_dunders() if d not in Lb.NOT_OPERATORS],
+            "td_handled_runtime": torchfn_names(), "object_attrs": sorted(dir(object))}
+
+
 def main(R):
     import warnings
     warnings.filterwarnings("ignore")
@@ -345,11 +372,14 @@ def main(R):
     R.trusted = ["argument synthesis table harness/c15_lib.py::cand/special (parameter name -> candidate values)",
                  "canonicalisation harness/c15_lib.py::canon/erase"]
     from . import translate, tr_c15  # noqa: F401
+    info = None
     try:
         info = translate.run("c15_tables")
-        R.extra["translated"] = {k: (len(v) if isinstance(v, (list, dict)) else v) for k, v in info.items()}
+        R.extra["translated"] = {"tables": {k: len(v) for k, v in info["tables"].items()}, "install_steps": len(info["steps"]),
+                                 "torch_functions_registered": len(info["torch_td"]) + len(info["torch_lazy"])}
     except translate.TranslateError as e:
         R.broken.append(f"translator c15_tables: {e}")
+    tr_c15.write_reflection(reflection())
     R.step_prove()
     ok = R.step_driver()
     t0 = time.time()
@@ -381,7 +411,7 @@ def main(R):
                              "torch_functions": len(torchfn_names())}
     if ok:
         from . import c15_model
-        c15_model.correspond(R, cases, abstracts)
+        c15_model.correspond(R, cases, abstracts, results, info)
 
 
 def replay(body):
